@@ -1,5 +1,16 @@
 package main
 
+import (
+	"encoding/binary"
+	"encoding/hex"
+	"fmt"
+	"strings"
+
+	"github.com/onflow/atree"
+
+	"verifharness/hx"
+)
+
 // The grammar generator's OWN verdict on the registers it builds (sweep s5, section 4: mutants of the slab
 // decoders that only the model replay noticed).  grammar.go knows which decision points deviated (`devs`), so
 //
@@ -66,4 +77,48 @@ func gramLabel(devs []string) string {
 		}
 	}
 	return ""
+}
+
+// childAddressOracle: a version-1 index slab writes the owner address ONCE (8 bytes behind the head and the
+// root's extra data) and per child the 8-byte slab index; every child header of the decoded slab must carry
+// THAT address, whatever slab ID the register was decoded under (registers the library wrote have both equal,
+// so only mutated / grammar-built registers tell the two apart; sweep s5: n54, n64).  Read off the dump
+// `M(id,size,count)[T(ty)]{addr.idx/...;...}` / `m(...)`, independently of the decoder's own bookkeeping.
+func (e *codecEnv) childAddressOracle(id atree.SlabID, data []byte, o decOutcome) {
+	k := regKind(data)
+	if !strings.HasPrefix(k, "v1-meta") && !strings.HasPrefix(k, "v1-mmeta") {
+		return
+	}
+	off := 2
+	if data[1]&0x80 != 0 {
+		n, err := extraDataLen(data)
+		if err != nil {
+			return
+		}
+		off += n
+	}
+	if len(data) < off+8 {
+		return
+	}
+	addr := binary.BigEndian.Uint64(data[off : off+8])
+	open := strings.IndexByte(o.dump, '{')
+	if open < 0 {
+		return
+	}
+	end := strings.IndexByte(o.dump[open:], '}')
+	if end <= 1 {
+		return // no children
+	}
+	for _, c := range strings.Split(o.dump[open+1:open+end], ";") {
+		dot := strings.IndexByte(c, '.')
+		if dot < 0 {
+			continue
+		}
+		if c[:dot] != fmt.Sprint(addr) {
+			e.violation("C07", fmt.Sprintf("index-slab register with the address field %d decoded under slab ID %s: child header %s does not carry the register's address: %s",
+				addr, hx.IDStr(id), c, hex.EncodeToString(data)))
+			return
+		}
+	}
+	e.st.Hit("child-address:checked")
 }
